@@ -2,6 +2,7 @@ SPECIFICATION FairSpec
 CONSTANTS
   Users = {"u1"}
   Flags = {"R", "F"}
+  FlagSets = {{"R"}, {"R", "F"}}
   MaxCalls = 3
   MaxFaults = 2
   MaxCloses = 1
